@@ -242,6 +242,9 @@ def mutKind (k : String) : Option (Bool × (Bits → Bits)) :=     -- (rebinding
   | "ilshift1" => some (true, fun b => if b.isEmpty then b else b.drop 1 ++ [false])
   | "imul2" => some (true, fun b => b ++ b)
   | "delall" => some (false, fun _ => [])
+  | "overwrite1" => some (false, fun b => true :: b.drop 1)
+  | "insert1" => some (false, fun b => true :: b)
+  | "prepend1" => some (false, fun b => true :: b)
   | _ => none
 
 def parseOp (h : Heap) (s : String) : Option Op :=
